@@ -421,13 +421,19 @@ where
         // draw_sub_image(area) called directly: draws the area (at the origin) iff it lies fully inside
         let k = 15 + 4 * nsub;
         let (ax, ay, aw, ah) = (i(a[k]) as i64, i(a[k + 1]) as i64, u(a[k + 2]) as i64, u(a[k + 3]) as i64);
-        let inside = !empty && aw > 0 && ah > 0 && ax >= 0 && ay >= 0 && ax + aw <= sw && ay + ah <= sh;
-        if !inside {
+        if empty {
+            // a zero sized SubImage: where its (clipped) area sits in the root is an artefact of intersection(); not judged
             if nsub == 0 {
                 return nothing_drawn(&ob, "area not inside the image").unwrap_or("OK 0".to_string());
             }
-            // an area outside a SubImage's own box is passed on to the parent: not specified, not judged
             return "OK skip".to_string();
+        }
+        // sub_image.rs:60-67 only re-bases: the area is judged against the ROOT image (C09_draw_sub_image_direct_nested),
+        // (x0, y0) = accumulated top left corner of the sub image in the root
+        let (rx, ry) = (x0 + ax, y0 + ay);
+        let inside = aw > 0 && ah > 0 && rx >= 0 && ry >= 0 && rx + aw <= w as i64 && ry + ah <= h as i64;
+        if !inside {
+            return nothing_drawn(&ob, "area not inside the root image").unwrap_or("OK 0".to_string());
         }
         tl = Point::zero();
         dw = aw;
